@@ -379,3 +379,12 @@ def run(M, rep, tier, only=None):
         rep.check(R12, key, bad is None, "%s opens a storage group with create=True (%s): merely looking creates it -- refused on a "
                   "read-only file, and an empty group appears in a writable one" % (key, ctx.fx.key(bad[1]) if bad else ""),
                   site=bad[1].site if bad else None, detail=describe_path(bad[0]) if bad else None)
+
+    # ---- R13 (shared with C04.R4): a deletion removes every link to the deleted ids, so that no stale link survives a reopen
+    from .common import run_shared
+    run_shared(c04, M, rep, tier, {"C04.R4": "C02.R13"})
+    # ---- R14 (shared with C05.R3): assigning a link twice leaves the second target linked
+    R14 = rep.rule("C02.R14", "create_link stores the link on every normal path (an existing link of that name is replaced)", floor=1,
+                   technique="raw h5py events of H5Group.create_link on all abstract paths (shared with C05.R3)")
+    from . import c05
+    c05.create_link_rule(M, rep, R14)
